@@ -9,10 +9,14 @@ def reg(pid, **kw):
 
 
 reg("C16",
-    packages=["sweeps"], bin="sweeps", level="exploration", engine="E4 sweeps",
+    packages=["sweeps", "httpdirect"], level="exploration", engine="E4 sweeps + E3a httpdirect",
+    parts=[
+        {"packages": ["sweeps"], "bin": "sweeps"},
+        {"packages": ["httpdirect"], "bin": "httpdirect"},
+    ],
     technique="bounded exhaustive enumeration of strings through every entry path of the real code, judged by a hand-written recogniser (reference model)",
     design_ref="DESIGN.md §3 C16",
-    explanation="every string over a boundary alphabet up to a length bound, every rid-like symbol word and template x component product, and every component 4-tuple is run through all 8 entry paths of the real types and compared with DFAs written from the specification grammar; dotted components whose head / tail is a valid neighbour component",
+    explanation="every string over a boundary alphabet up to a length bound, every rid-like symbol word and template x component product, and every component 4-tuple is run through all 8 entry paths of the real types and compared with DFAs written from the specification grammar; dotted components whose head / tail is a valid neighbour component; HTTP entry paths (part 1): every string over a 16-symbol alphabet up to the length bound as Authorization / cookie credential and as raw query / path / header parameter, rid component products likewise, valid values through the client encoders and back",
     level_text="Exhaustive exploration of a closed, finite string space (all strings up to the bound over an alphabet with one representative per character class and every class boundary) on the real parsing/deserialization entry points, against an independent recogniser. Exact validation is a per-string predicate with a tiny automaton, so small-scope exhaustiveness over class representatives is the right strength.",
     level_note="Trusted: the hand-written recognisers (40 lines, from the Conjure spec grammar); serde_json/serde_smile for rendering the probe documents. Strings longer than the bound and characters outside the alphabet are not covered.")
 
@@ -25,14 +29,15 @@ reg("C15",
     level_note="Trusted: serde_json/serde_smile to render probe documents; Rust integer formatting. Values further than the radius from every centre are assumed to behave like their neighbours.")
 
 reg("C12",
-    packages=["sweeps", "cgorder"], level="exploration", engine="E4 sweeps + E2 genharness",
+    packages=["sweeps", "cgorder", "httpdirect"], level="exploration", engine="E4 sweeps + E2 genharness + E3a httpdirect",
     parts=[
         {"packages": ["sweeps"], "bin": "sweeps"},
         {"packages": ["cgorder"], "cmd": ["python3", "engines/e2/e2.py"]},
+        {"packages": ["httpdirect"], "bin": "httpdirect"},
     ],
     technique="bounded exhaustive enumeration of value grids/ranges through to_plain/from_plain of the real code, judged by round-trip identity and an independent PLAIN spelling model",
     design_ref="DESIGN.md §3 C12",
-    explanation="per PLAIN-capable runtime type every value of a grid or full range (thorough: all 2^32 i32, all 2^32 f32-widened doubles) is formatted and parsed back; text is compared with independent encoders (Base64, uuid, decimal) or grammar checkers (number, RFC 3339); by-reference spelling (&T, &&T); DoubleKey",
+    explanation="per PLAIN-capable runtime type every value of a grid or full range (thorough: all 2^32 i32, all 2^32 f32-widened doubles) is formatted and parsed back; text is compared with independent encoders (Base64, uuid, decimal) or grammar checkers (number, RFC 3339); by-reference spelling (&T, &&T); DoubleKey; wire part (part 2): value grids of every PLAIN type through the real client encoders (path / query / optional / list / set / header) and the real server decoders",
     level_text="Exhaustive exploration of complete ranges where feasible (bool, i32, byte strings <= 2, f32-widened doubles) and of class-boundary grids elsewhere, on the real formatting/parsing code against an independent spelling model.",
     level_note="Trusted: chrono's field constructors to build instants; std float parsing as the judge of 'same number'. Part 1 runs the compiled generated enums and aliases of PLAIN primitives (value -> to_plain -> from_plain, spelling model).")
 
